@@ -8,6 +8,7 @@ meaning.  Every sampled configuration is written as a directory tree and compile
 accepted iff the model's violation set is empty, a rejection must be for one of the model's reasons, and an accepted
 program must print the value of the unique implementation (GoSem)."""
 import json, os, re
+import re
 from common import *
 import engine
 
@@ -243,6 +244,71 @@ def run(tier, rep):
                 rep.violation(f"rejected-for-unlisted-reason:{key}:got={'+'.join(sorted(got))[:80]}", {"config": cfg, "diags": [d["msg"] for d in a.get("diags", [])][:4]}, replay={"config": cfg})
                 continue
             agree += 1
+    # ---- the verdict does not depend on how the packages are called: the same projects with package names of which one is a
+    # prefix of another (Geo / GeoData, and the other way round)
+    renamed = 0
+    sample = [c for c in cases if c["compile"]["verdict"] not in ("panic", "timeout")]
+    rnd.shuffle(sample)
+    sample = sample[: (240 if tier == "quick" else 4000)]
+    rreqs = []
+    for c in sample:
+        src = os.path.dirname(c["path"])
+        for tag, mp in (("ab", {"A": "Geo", "B": "GeoData"}), ("ba", {"A": "GeoData", "B": "Geo"})):
+            dst = src + "_" + tag
+            for dp, dn, fn in os.walk(src):
+                rel = os.path.relpath(dp, src)
+                parts = [] if rel == "." else [mp.get(x, x) for x in rel.split(os.sep)]
+                os.makedirs(os.path.join(dst, *parts), exist_ok=True)
+                for f in fn:
+                    t = open(os.path.join(dp, f)).read()
+                    t = re.sub(r"\b(A|B)\b", lambda m: mp[m.group(1)], t)
+                    open(os.path.join(dst, *parts, f), "w").write(t)
+            rreqs.append({"id": f"{c['id']}:{tag}", "path": os.path.join(dst, "main.gom")})
+    rans = {a["id"]: a for a in gv_parallel("compile", rreqs)}
+    for c in sample:
+        for tag in ("ab", "ba"):
+            a = rans[f"{c['id']}:{tag}"]
+            renamed += 1
+            if a["verdict"] in ("panic", "timeout"):
+                rep.violation(f"crash:renamed-packages:{a.get('at')}", {"config": c["config"], "msg": a.get("msg")}, replay={"config": c["config"]})
+            elif (a["verdict"] == "ok") != (c["compile"]["verdict"] == "ok"):
+                key = "+".join(sorted(c["config"]["viol"])) or "ok"
+                rep.violation(f"verdict-depends-on-package-names:{key}:{'prefix-first' if tag == 'ab' else 'prefix-last'}",
+                              {"config": c["config"], "names": "A=Geo, B=GeoData" if tag == "ab" else "A=GeoData, B=Geo", "with_plain_names": c["compile"]["verdict"],
+                               "with_these_names": a["verdict"], "diags": [d["msg"] for d in a.get("diags", [])][:3]}, replay={"config": c["config"]})
+    rep.coverage["projects_recompiled_under_prefix_related_package_names"] = renamed
+    # ---- a missing package is reported by `link` too: every set of cores that contains Main but lacks one of the packages it
+    # (transitively) imports must be refused; the complete set links
+    import c15, itertools
+    build_cli()
+    link_sets = 0
+    for graph in ("chain", "tri", "fan", "diamond"):
+        proj = c15.Project(graph, os.path.join(root, "link_" + graph))
+        order = [p_ for p_ in ("A", "B", "C", "Main") if p_ in proj.deps]
+        for p_ in order:
+            v, err, _ = proj.compile_pkg("build", p_)
+            if v != "ok":
+                raise ToolError(f"link sets: build of {p_} in {graph} failed: {err}")
+        need = set()
+        todo = ["Main"]
+        while todo:
+            x = todo.pop()
+            if x not in need:
+                need.add(x)
+                todo += proj.deps[x]
+        others = [p_ for p_ in order if p_ != "Main"]
+        for k in range(len(others) + 1):
+            for sub in itertools.combinations(others, k):
+                S = set(sub) | {"Main"}
+                v, err, pan = proj.link(S)
+                link_sets += 1
+                if pan:
+                    rep.violation(f"crash:link:{graph}", {"cores": sorted(S), "stderr": err})
+                elif need <= S and v != "ok":
+                    rep.violation(f"link-refuses-complete-set:{graph}", {"cores": sorted(S), "stderr": err})
+                elif not (need <= S) and v == "ok":
+                    rep.violation(f"link-accepts-missing-package:{graph}:missing={'+'.join(sorted(need - S))}", {"cores": sorted(S), "needed": sorted(need)})
+    rep.coverage["link_core_sets_judged"] = link_sets
     local_checked = local_rules(rep, root)
     name_use(rep, root)
     rep.coverage["package_local_configurations"] = local_checked
